@@ -5,7 +5,7 @@ from nauyaca.utils.url import normalize_url, parse_url
 
 import vf.server  # noqa: F401  (installs the SymValueError shim)
 from props.c08 import DIGS, HEXS, is_pchar, is_qchar, is_reg
-from vf import Ob, V
+from vf import Ob, V, pick
 
 REGS = "aZ9-_~!;"
 HX = "09afAF"
@@ -51,6 +51,44 @@ def norm_host(sk: int, pk: int, a: int, shape: int) -> bool:
     except ValueError:
         return True                       # not an accepted URL: outside the property
     return V(_same(u, PORT_VALUE[pk], host.lower()))
+
+
+TAILS2 = [("/Docs/A", "/Docs/A", ""), ("/docs/a", "/docs/a", ""), ("/docs/%41", "/docs/%41", ""), ("/docs/%61", "/docs/%61", ""),
+          ("/docs/a/", "/docs/a/", ""), ("/docs/a?X=1", "/docs/a", "X=1"), ("/docs/a?x=1", "/docs/a", "x=1"), ("", "/", ""),
+          ("/docs/a?", "/docs/a", ""), ("/docs/A;p", "/docs/A;p", "")]
+HOSTS2 = [("Example.org", "example.org"), ("example.org", "example.org"), ("example.org.", "example.org."), ("EXAMPLE.com", "example.com")]
+import nauyaca.protocol.request as _rqmod  # noqa: E402
+import nauyaca.utils.url as _urlmod  # noqa: E402
+from vf import ModuleState  # noqa: E402
+
+_STATES = [ModuleState(_urlmod), ModuleState(_rqmod)]
+NH2 = pick(2, len(HOSTS2))
+NP2 = pick(2, 4)
+
+
+def memo(t1: int, h2: int, t2: int, p2: int) -> bool:
+    """
+    pre: 0 <= t1 < len(TAILS2) and 0 <= t2 < len(TAILS2) and 0 <= h2 < NH2 and 0 <= p2 < NP2
+    post: _
+    """
+    # these functions are pure: handling one URL must leave no trace in how the next, similar-looking one is handled
+    # (a memo keyed by anything coarser than the exact text -- lower-cased, without the port, unquoted -- would)
+    for st in _STATES:
+        st.restore()                       # module-level containers back to their import-time content
+    u1 = "gemini://Example.org" + TAILS2[t1][0]
+    u2 = "gemini://" + HOSTS2[h2][0] + PORTS[p2] + TAILS2[t2][0]
+    for f in (parse_url, normalize_url, GeminiRequest.from_line):
+        try:
+            f(u1)
+        except ValueError:
+            pass
+    try:
+        p = parse_url(u2)
+    except ValueError:
+        return True
+    if p.hostname != HOSTS2[h2][1] or p.port != PORT_VALUE[p2] or p.path != TAILS2[t2][1] or p.query != TAILS2[t2][2]:
+        return V(False)
+    return V(_same(u2, PORT_VALUE[p2], HOSTS2[h2][1]))
 
 
 def norm_pcthost(sk: int, pk: int, hx: int, shape: int) -> bool:
@@ -165,6 +203,11 @@ OBLIGATIONS = [
        symbolic="host character: symbolic index into 8 reg-name characters (a Z 9 - _ ~ ! ;) (upper/lower/digit/unreserved/sub-delims)", note="discrete: str.lower() on a symbolic character is beyond the solver budget",
        enum="3 scheme spellings x 7 port forms (absent, :1965, empty, :7, :0, :65535, :01965) x 3 tails",
        functions=["parse_url", "normalize_url", "GeminiRequest.from_line", "validate_url"]),
+    Ob("memo", memo, quick=300, thorough=600,
+       symbolic="two URLs handled one after the other by parse_url + normalize_url + from_line: tail of the first (10: case, pct-case, "
+                "trailing slash, query case, empty query, params); host spelling (2 | 4), tail (10) and port spelling (2 | 4) of the second, "
+                "which is compared with ground truth known by construction", functions=["parse_url", "normalize_url", "GeminiRequest.from_line"],
+       note="discrete: concrete texts, the engine forks on the indices"),
     Ob("norm_pcthost", norm_pcthost, quick=240, thorough=900,
        symbolic="host with a pct-encoded octet (hex digit by symbolic index) followed by upper-case letters; 3 scheme spellings x 7 port forms",
        functions=["parse_url", "normalize_url", "GeminiRequest.from_line"], note="discrete dimensions"),
